@@ -91,6 +91,8 @@ struct Dir {
     writer: Option<Waker>,
     delay_fn: Box<dyn FnMut(u32) -> Delay + Send>,
     paused: bool,
+    /// Frames written but not yet flushed (only used in `flush_required` mode).
+    unflushed: Vec<Frame>,
 }
 
 struct Shared {
@@ -104,6 +106,8 @@ struct Shared {
     budget_exceeded: bool,
     /// Frames counted against the budget (keep-alive pings are not counted).
     budget_used: u64,
+    /// Behave like a buffering byte-stream writer: frames reach the peer only after a flush.
+    flush_required: bool,
 }
 
 impl Shared {
@@ -218,6 +222,7 @@ impl SimLink {
             writer: None,
             delay_fn: f,
             paused: false,
+            unflushed: Vec::new(),
         };
         let shared = Arc::new(Mutex::new(Shared {
             dirs: [mk(0, delay_a2b), mk(1, delay_b2a)],
@@ -228,6 +233,7 @@ impl SimLink {
             budget: None,
             budget_exceeded: false,
             budget_used: 0,
+            flush_required: false,
         }));
         {
             let mut s = shared.lock().unwrap();
@@ -293,6 +299,11 @@ impl SimLink {
         }
     }
 
+    /// Frames are held back until the sink is flushed (like FramedWrite / BufWriter transports).
+    pub fn set_flush_required(&self, on: bool) {
+        self.shared.lock().unwrap().flush_required = on;
+    }
+
     /// Sets a total frame budget (both directions). Once exceeded, the sinks never become
     /// ready again, so that a frame-emitting livelock turns into quiescence.
     pub fn set_budget(&self, frames: u64) {
@@ -350,6 +361,7 @@ impl Sink<Bytes> for SimSink {
         let mut s = self.shared.lock().unwrap();
         let t_ms = s.now_ms();
         let tap = s.tap.clone();
+        let flush_required = s.flush_required;
         if item[..] != [3u8] {
             s.budget_used += 1;
         }
@@ -371,6 +383,8 @@ impl Sink<Bytes> for SimSink {
         if d.stalled {
             // Swallowed: counts as sent, never delivered. Keep it out of the queue so that the
             // sender does not see back-pressure from a silent link.
+        } else if flush_required {
+            d.unflushed.push(Frame { idx, bytes: item, release, ticks });
         } else {
             d.queue.push_back(Frame { idx, bytes: item, release, ticks });
             if let Some(w) = d.reader.take() {
@@ -382,10 +396,17 @@ impl Sink<Bytes> for SimSink {
     }
 
     fn poll_flush(self: Pin<&mut Self>, _cx: &mut Context<'_>) -> Poll<Result<(), Self::Error>> {
-        let s = self.shared.lock().unwrap();
-        let d = &s.dirs[self.dir as usize];
+        let mut s = self.shared.lock().unwrap();
+        let d = &mut s.dirs[self.dir as usize];
         if d.sink_failed {
             return Poll::Ready(Err(link_err("sink error injected")));
+        }
+        if !d.unflushed.is_empty() {
+            let frames = std::mem::take(&mut d.unflushed);
+            d.queue.extend(frames);
+            if let Some(w) = d.reader.take() {
+                w.wake();
+            }
         }
         Poll::Ready(Ok(()))
     }
